@@ -3,8 +3,8 @@
 #   (1) demo passes on the clean tree, (2) demo fails with the patch, (3) the existing suite passes with the patch.
 # usage: tools/confirm_seed.sh <PID> <k> [<test-name>] [<package>]
 PID=$1; K=$2
-SRC=/tmp/seed-out/$PID/change$K
-WT=/tmp/wt-$PID
+SRC=${SEED_SRC:-/tmp/seed-out}/$PID/change$K
+WT=${SEED_WT:-/tmp/wt}-$PID
 NAME=${3:-$(grep -ho -- "--test [A-Za-z0-9_]*" $SRC/README.md $SRC/demo.rs 2>/dev/null | head -1 | awk '{print $2}')}
 PKG=${4:-jsonrpsee-integration-tests}
 DDIR=${5:-tests/tests}
@@ -15,7 +15,7 @@ echo "== confirm $PID change$K test=$NAME pkg=$PKG at $(git -C /repo rev-parse -
 cd $WT || exit 2
 git checkout -q -- . ; git checkout -q --detach $(git -C /repo rev-parse HEAD) || exit 2
 # remove other demos so that they do not interfere
-mkdir -p /tmp/seed-out/$PID/parked; for f in tests/tests/* types/tests/* core/tests/* server/tests/*; do [ -e "$f" ] || continue; case "$(git ls-files --error-unmatch "$f" 2>/dev/null)" in "") mv "$f" /tmp/seed-out/$PID/parked/ ;; esac; done
+mkdir -p ${SEED_SRC:-/tmp/seed-out}/$PID/parked; for f in tests/tests/* types/tests/* core/tests/* server/tests/*; do [ -e "$f" ] || continue; case "$(git ls-files --error-unmatch "$f" 2>/dev/null)" in "") mv "$f" ${SEED_SRC:-/tmp/seed-out}/$PID/parked/ ;; esac; done
 mkdir -p $DDIR; DEST=$DDIR/$NAME.rs
 cp $SRC/demo.rs $DEST
 echo "-- (1) demo on clean tree"
